@@ -240,9 +240,15 @@ fn subscribe_replay() {
             let (_, a) = pt.add_assignment("global", table::PolicyDirection::Import, table::Disposition::Accept, vec!["p".into()]).unwrap();
             tm.import_policy.store(Some(a));
         }
-        if head.get(3) == Some(&"1") {
+        let variant: u32 = head.get(3).and_then(|x| x.parse().ok()).unwrap_or(0);
+        if variant & 1 != 0 {
             // peer p1's next hop is unreachable for the whole behaviour
             tm.update_nexthop_validity(IpAddr::V4(Ipv4Addr::new(192, 0, 2, 1)), false);
+        }
+        if variant & 2 != 0 {
+            // the speaker is restarting: route selection for the family is deferred for the whole behaviour (the
+            // Adj-RIB-In is what it is all the same)
+            tm.start_deferral_families(&[Family::IPV4]);
         }
         *SCHED.lock().unwrap() = Some(Sched { parked: HashMap::new(), go: Default::default(), done: Default::default() });
         let tids: HashMap<&str, usize> = [("t1", 1usize), ("t2", 2), ("u1", 3), ("u2", 4)].into_iter().collect();
@@ -315,33 +321,75 @@ fn subscribe_replay() {
             let Some(mut s) = got.remove(u) else { continue };
             let mut pre: HashMap<&str, u32> = HashMap::new();
             let mut post: HashMap<&str, u32> = HashMap::new();
+            // the same events as the daemon's own subscriber folds them: the snapshot phase through the BMP client's
+            // apply_snapshot, what follows EndOfSnapshot event by event (as the station does)
+            let mut bfold = crate::bmp::verif_harness::SnapFold::new();
+            let mut in_snapshot = true;
+            let mut down_in_snapshot: Vec<IpAddr> = Vec::new();
+            let mut bpre: HashMap<&str, u32> = HashMap::new();
+            let mut bpost: HashMap<&str, u32> = HashMap::new();
             let mut n = 0;
             let mut ups_downs = Vec::new();
             while let Ok(ev) = s.rx.try_recv() {
                 n += 1;
                 match ev {
+                    BgpEvent::EndOfSnapshot => {
+                        in_snapshot = false;
+                        // the client flushes the peers that are established now: not those whose session ended meanwhile
+                        for (is_post, m) in [(false, &mut bpre), (true, &mut bpost)] {
+                            for (peer, nlri, attrs) in bfold.contents(is_post) {
+                                if !down_in_snapshot.contains(&peer) {
+                                    m.insert(sub_key_of(&nlri), sub_val(Some(&attrs)));
+                                }
+                            }
+                        }
+                    }
                     BgpEvent::AdjRibIn(c) => {
                         for x in &c.nlris {
                             pre.insert(sub_key_of(&x.nlri), sub_val(c.attrs.as_ref()));
+                            if !in_snapshot {
+                                bpre.insert(sub_key_of(&x.nlri), sub_val(c.attrs.as_ref()));
+                            }
+                        }
+                        if in_snapshot {
+                            bfold.apply(false, c);
                         }
                     }
                     BgpEvent::AdjRibInPost(c) => {
                         for x in &c.nlris {
                             post.insert(sub_key_of(&x.nlri), sub_val(c.attrs.as_ref()));
+                            if !in_snapshot {
+                                bpost.insert(sub_key_of(&x.nlri), sub_val(c.attrs.as_ref()));
+                            }
+                        }
+                        if in_snapshot {
+                            bfold.apply(true, c);
                         }
                     }
                     BgpEvent::PeerDown(d) => {
                         let keys: &[&str] = if d.peer_addr == IpAddr::V4(Ipv4Addr::new(192, 0, 2, 1)) { &["k1", "k2"] } else { &["k3"] };
+                        if in_snapshot {
+                            down_in_snapshot.push(d.peer_addr);
+                        }
                         for k in keys {
                             pre.remove(k);
                             post.remove(k);
+                            bpre.remove(k);
+                            bpost.remove(k);
                         }
                         ups_downs.push(format!("\"down:{}\"", d.peer_addr));
                     }
                     _ => {}
                 }
             }
-            subs_json.push(format!("\"{}\":{{\"view\":{},\"events\":{}}}", u, sub_views_json(&pre, &post), n));
+            subs_json.push(format!(
+                "\"{}\":{{\"view\":{},\"bmpview\":{},\"eos\":{},\"events\":{}}}",
+                u,
+                sub_views_json(&pre, &post),
+                sub_views_json(&bpre, &bpost),
+                !in_snapshot,
+                n
+            ));
         }
         writeln!(out, "{{\"final\":true,\"completed\":{},\"subs\":{{{}}},\"rib\":{}}}", ok, subs_json.join(","), sub_rib_json(&tm)).unwrap();
     }
@@ -465,6 +513,7 @@ fn fib_replay() {
     let mut vfib: HashMap<(u32, String), Vec<String>> = HashMap::new();
     let mut vrfs: Vec<(String, u32, String, Vec<u32>)> = Vec::new();
     let mut reg: HashMap<String, i64> = HashMap::new();
+    let mut observers: Vec<(String, mpsc::UnboundedReceiver<ToPeerEvent>, bool)> = Vec::new();
     for line in text.lines() {
         let t: Vec<&str> = line.split_whitespace().collect();
         if t.is_empty() {
@@ -506,6 +555,19 @@ fn fib_replay() {
                 rx = Some(r);
                 for (name, id, rd, imp) in &vrfs {
                     tm.add_vrf(name.clone(), rd.parse().unwrap(), imp.iter().map(|n| fib_rt(*n)).collect(), vec![], *id).unwrap();
+                }
+                // C06 at the level of the TableManager: registered neighbours receive the change stream the shards fan out.
+                // Two addresses that are nobody's session and every source peer's own address (a neighbour is both).
+                observers.clear();
+                let mut oaddrs: Vec<IpAddr> = vec![IpAddr::V4(Ipv4Addr::new(10, 0, 9, 1)), IpAddr::V4(Ipv4Addr::new(10, 0, 9, 2))];
+                for (_, addr, _, _, _) in &sess_cfg {
+                    if !oaddrs.contains(addr) {
+                        oaddrs.push(*addr);
+                    }
+                }
+                for a in oaddrs {
+                    let rx = tm.register_peer(a, FnvHashSet::default(), |_| {});
+                    observers.push((a.to_string(), rx, false));
                 }
                 sources.clear();
                 for (name, addr, ebgp, rtr, role) in &sess_cfg {
@@ -615,7 +677,51 @@ fn fib_replay() {
                 kernel::verif::VerifRequest::Other => {}
             }
         }
-        let mut s = String::from("{\"fib\":{");
+        let mut notifs = String::new();
+        let mut closed: Vec<String> = Vec::new();
+        for (oi, (oname, orx, gone)) in observers.iter_mut().enumerate() {
+            let mut items: Vec<String> = Vec::new();
+            loop {
+                match orx.try_recv() {
+                    Ok(ToPeerEvent::NlriChange(u)) => {
+                        let pn = prefixes.iter().find(|p| p.1 == u.net).map(|p| p.0.clone()).unwrap_or_else(|| "?".into());
+                        let paths: Vec<String> = u
+                            .current_paths
+                            .iter()
+                            .map(|path| {
+                                let sess = sources.iter().find(|(_, v)| Arc::ptr_eq(v, &path.source)).map(|(k, _)| k.clone()).unwrap_or_else(|| "?".into());
+                                let cls = classes.iter().find(|(k, v)| !k.1 && ***v == *path.attr).map(|(k, _)| k.0.clone()).unwrap_or_else(|| "?".into());
+                                let nh = path.nexthop.and_then(|n| nhs.iter().find(|x| x.1 == n.addr()).map(|x| x.0.clone())).unwrap_or_else(|| "?".into());
+                                format!("{{\"sess\":\"{}\",\"cls\":\"{}\",\"nh\":\"{}\",\"lid\":{}}}", sess, cls, nh, path.local_path_id)
+                            })
+                            .collect();
+                        items.push(format!(
+                            "{{\"p\":\"{}\",\"id\":{},\"bc\":{},\"ac\":{},\"replaced\":{},\"paths\":[{}]}}",
+                            pn,
+                            u.dest_id,
+                            u.best_changed,
+                            u.any_changed,
+                            u.replaced_path_id.map(|x| x.to_string()).unwrap_or_else(|| "null".into()),
+                            paths.join(",")
+                        ));
+                    }
+                    Ok(_) => {}
+                    Err(mpsc::error::TryRecvError::Empty) => break,
+                    Err(mpsc::error::TryRecvError::Disconnected) => {
+                        *gone = true;
+                        break;
+                    }
+                }
+            }
+            if *gone {
+                closed.push(format!("\"{}\"", oname));
+            }
+            if oi > 0 {
+                notifs.push(',');
+            }
+            notifs.push_str(&format!("\"{}\":[{}]", oname, items.join(",")));
+        }
+        let mut s = format!("{{\"notifs\":{{{}}},\"closed\":[{}],\"fib\":{{", notifs, closed.join(","));
         for (i, (p, _)) in prefixes.iter().enumerate() {
             if i > 0 {
                 s.push(',');
@@ -656,5 +762,219 @@ fn fib_replay() {
         s.push_str(&format!("}},\"neg\":{}}}", neg));
         writeln!(out, "{}", s).unwrap();
     }
+    out.flush().unwrap();
+}
+
+// ------------------------------------------------------------------------------------------------
+// C12, "the validation state USED BY POLICY and SHOWN BY THE API": VRP sets of spec/Rov/Rov.tla with the state the
+// specification computes for every route, on the real TableManager: (1) an import policy "reject when the RPKI state is X"
+// evaluated through TableManager::apply_import (the gate `needs_rpki` decides whether the VRP table is consulted at all) for
+// X in Valid / Invalid / NotFound and three ways of building the assignment (both policies in one call; the RPKI policy
+// first and another policy added by a second call; the other way round); (2) the annotation collect_paths puts on every path.
+//
+// Input (VERIF_IN ends ".rovuse.in"):  emb <v4|v6> <off>   routes <len>:<val>:<o> ...   state <exp chars> <c>:<len>:<val>:<m>:<a> ...
+// Output: one line per state that has a mismatch: {"i":n,"emb":"..","bad":[..]} and a final {"summary":{..}}
+
+fn rov_embed(v6: bool, off: u32, len: u32, val: u32) -> (IpAddr, u8) {
+    if v6 {
+        let base: u128 = 0x2001_0db8_5a5a_a5a5_3c3c_c3c3_0f0f_f0f0;
+        let keep = if off == 0 { 0 } else { base & (u128::MAX << (128 - off)) };
+        let v = if len == 0 { 0 } else { (val as u128) << (128 - off - len) };
+        (IpAddr::V6(std::net::Ipv6Addr::from(keep | v)), (off + len) as u8)
+    } else {
+        let base: u32 = 0xAC5A_A53C;
+        let keep = if off == 0 { 0 } else { base & (u32::MAX << (32 - off)) };
+        let v = if len == 0 { 0 } else { val << (32 - off - len) };
+        (IpAddr::V4(Ipv4Addr::from(keep | v)), (off + len) as u8)
+    }
+}
+
+fn rov_asn(a: u32) -> u32 {
+    if a == 0 { 0 } else { 64500 + a }
+}
+
+fn rov_attr(o: u32) -> Arc<Vec<packet::Attribute>> {
+    let mut bin = Vec::new();
+    match o {
+        99 => {
+            bin.extend_from_slice(&[2, 1]);
+            bin.extend_from_slice(&65000u32.to_be_bytes());
+            bin.extend_from_slice(&[1, 2]);
+            bin.extend_from_slice(&64501u32.to_be_bytes());
+            bin.extend_from_slice(&64502u32.to_be_bytes());
+        }
+        3 => {}
+        a => {
+            bin.extend_from_slice(&[2, 2]);
+            bin.extend_from_slice(&65000u32.to_be_bytes());
+            bin.extend_from_slice(&rov_asn(a).to_be_bytes());
+        }
+    }
+    Arc::new(vec![
+        packet::Attribute::new_with_value(packet::Attribute::ORIGIN, 0).unwrap(),
+        packet::Attribute::new_with_bin(packet::Attribute::AS_PATH, bin).unwrap(),
+    ])
+}
+
+fn rov_assignment(order: u8, st: table::RpkiValidationState) -> Arc<table::PolicyAssignment> {
+    let mut pt = table::PolicyTable::new();
+    pt.add_defined_set(table::DefinedSetConfig::Community { name: "never".into(), patterns: vec!["65000:4242".into()] }).map_err(|_| ()).unwrap();
+    pt.add_statement("sx", vec![table::ConditionConfig::Rpki(st)], Some(table::Disposition::Reject), table::Actions::default()).map_err(|_| ()).unwrap();
+    pt.add_statement("sc", vec![table::ConditionConfig::CommunitySet("never".into(), table::MatchOption::Any)], Some(table::Disposition::Reject), table::Actions::default())
+        .map_err(|_| ())
+        .unwrap();
+    pt.add_policy("px", vec!["sx".into()]).map_err(|_| ()).unwrap();
+    pt.add_policy("pc", vec!["sc".into()]).map_err(|_| ()).unwrap();
+    let mut add = |names: Vec<&str>| {
+        pt.add_assignment("global", table::PolicyDirection::Import, table::Disposition::Accept, names.into_iter().map(|s| s.into()).collect())
+            .map_err(|_| ())
+            .unwrap()
+            .1
+    };
+    match order {
+        0 => add(vec!["px", "pc"]),
+        1 => {
+            add(vec!["px"]);
+            add(vec!["pc"])
+        }
+        _ => {
+            add(vec!["pc"]);
+            add(vec!["px"])
+        }
+    }
+}
+
+#[test]
+fn rov_use_replay() {
+    let Ok(inp) = std::env::var("VERIF_IN") else {
+        return;
+    };
+    if !inp.ends_with(".rovuse.in") {
+        return;
+    }
+    let outp = std::env::var("VERIF_OUT").expect("VERIF_OUT");
+    let text = std::fs::read_to_string(&inp).expect("read VERIF_IN");
+    let mut out = std::io::BufWriter::new(std::fs::File::create(&outp).expect("create VERIF_OUT"));
+    let src = Arc::new(table::Source::new(
+        IpAddr::V4(Ipv4Addr::new(10, 0, 0, 1)),
+        IpAddr::V4(Ipv4Addr::new(10, 0, 0, 254)),
+        65000,
+        rov_asn(3),
+        Ipv4Addr::new(1, 1, 1, 1),
+        table::PeerRole::Ebgp,
+    ));
+    let caches: HashMap<String, Arc<IpAddr>> =
+        ["k1", "k2", "k3"].iter().enumerate().map(|(i, c)| (c.to_string(), Arc::new(IpAddr::V4(Ipv4Addr::new(192, 0, 2, i as u8 + 1))))).collect();
+    let kinds = [('V', table::RpkiValidationState::Valid), ('I', table::RpkiValidationState::Invalid), ('N', table::RpkiValidationState::NotFound)];
+    let mut assigns = Vec::new();
+    for (ch, _) in kinds.iter() {
+        for order in 0..3u8 {
+            let st = match ch {
+                'V' => table::RpkiValidationState::Valid,
+                'I' => table::RpkiValidationState::Invalid,
+                _ => table::RpkiValidationState::NotFound,
+            };
+            assigns.push((*ch, order, rov_assignment(order, st)));
+        }
+    }
+    let (mut v6, mut off) = (false, 0u32);
+    let mut routes: Vec<(u32, u32, u32)> = Vec::new();
+    let (mut nstates, mut nevals, mut idx) = (0u64, 0u64, 0u64);
+    for line in text.lines() {
+        let t: Vec<&str> = line.split_whitespace().collect();
+        if t.is_empty() {
+            continue;
+        }
+        match t[0] {
+            "emb" => {
+                v6 = t[1] == "v6";
+                off = t[2].parse().unwrap();
+            }
+            "routes" => {
+                routes = t[1..]
+                    .iter()
+                    .map(|r| {
+                        let f: Vec<u32> = r.split(':').map(|x| x.parse().unwrap()).collect();
+                        (f[0], f[1], f[2])
+                    })
+                    .collect();
+            }
+            "state" => {
+                idx += 1;
+                nstates += 1;
+                let exp: Vec<char> = t[1].chars().collect();
+                let tm = TableManager::new(2);
+                let mut roas = Vec::new();
+                for v in &t[2..] {
+                    let f: Vec<&str> = v.split(':').collect();
+                    let (len, val, m, a): (u32, u32, u32, u32) = (f[1].parse().unwrap(), f[2].parse().unwrap(), f[3].parse().unwrap(), f[4].parse().unwrap());
+                    let (addr, mask) = rov_embed(v6, off, len, val);
+                    roas.push((packet::IpNet::new(addr, mask), Arc::new(table::Roa::new((off + m) as u8, rov_asn(a), caches[f[0]].clone()))));
+                }
+                tm.rpki_insert(roas);
+                let fam = if v6 { Family::IPV6 } else { Family::IPV4 };
+                let nh = bgp::Nexthop::V4(Ipv4Addr::new(192, 0, 2, 77));
+                let mut bad: Vec<String> = Vec::new();
+                for (ri, (len, val, o)) in routes.iter().enumerate() {
+                    let (addr, mask) = rov_embed(v6, off, *len, *val);
+                    let net = match addr {
+                        IpAddr::V4(a) => packet::Nlri::V4(bgp::Ipv4Net { addr: a, mask }),
+                        IpAddr::V6(a) => packet::Nlri::V6(bgp::Ipv6Net { addr: a, mask }),
+                    };
+                    let attr = rov_attr(*o);
+                    for (ch, order, a) in &assigns {
+                        let mut n = Some(nh);
+                        let (filtered, _) = tm.apply_import(Some(a), &src, &net, &attr, &mut n);
+                        nevals += 1;
+                        if filtered != (exp[ri] == *ch) && bad.len() < 6 {
+                            bad.push(format!(
+                                "{{\"kind\":\"policy\",\"route\":[{},{},{}],\"state\":\"{}\",\"reject_when\":\"{}\",\"assignment_built\":{},\"rejected\":{}}}",
+                                len, val, o, exp[ri], ch, order, filtered
+                            ));
+                        }
+                    }
+                    tm.insert_route(src.clone(), fam, packet::PathNlri { path_id: *o, nlri: net }, Some(nh), attr, None, 0);
+                }
+                let dests = tm.collect_paths(table::TableQuery::AdjIn(src.remote_addr), fam, vec![], false);
+                let mut seen = 0usize;
+                for d in &dests {
+                    for p in &d.paths {
+                        let Some(ri) = routes.iter().position(|(len, val, o)| {
+                            let (addr, mask) = rov_embed(v6, off, *len, *val);
+                            *o == p.remote_path_id
+                                && match (&d.net, addr) {
+                                    (packet::Nlri::V4(n), IpAddr::V4(a)) => n.addr == a && n.mask == mask,
+                                    (packet::Nlri::V6(n), IpAddr::V6(a)) => n.addr == a && n.mask == mask,
+                                    _ => false,
+                                }
+                        }) else {
+                            continue;
+                        };
+                        seen += 1;
+                        nevals += 1;
+                        let got = match &p.validation {
+                            None => 'N',
+                            Some(v) => match v.state {
+                                table::RpkiValidationState::NotFound => 'N',
+                                table::RpkiValidationState::Valid => 'V',
+                                table::RpkiValidationState::Invalid => 'I',
+                            },
+                        };
+                        if got != exp[ri] && bad.len() < 6 {
+                            bad.push(format!("{{\"kind\":\"api\",\"route\":[{},{},{}],\"state\":\"{}\",\"shown\":\"{}\"}}", routes[ri].0, routes[ri].1, routes[ri].2, exp[ri], got));
+                        }
+                    }
+                }
+                if seen != routes.len() && bad.len() < 6 {
+                    bad.push(format!("{{\"kind\":\"api\",\"what\":\"{} of {} inserted paths listed\"}}", seen, routes.len()));
+                }
+                if !bad.is_empty() {
+                    writeln!(out, "{{\"i\":{},\"emb\":\"{}{}\",\"line\":\"{}\",\"bad\":[{}]}}", idx, if v6 { "v6/" } else { "v4/" }, off, line, bad.join(",")).unwrap();
+                }
+            }
+            x => panic!("harness: {x}"),
+        }
+    }
+    writeln!(out, "{{\"summary\":{{\"states\":{},\"evaluations\":{}}}}}", nstates, nevals).unwrap();
     out.flush().unwrap();
 }
